@@ -21,7 +21,7 @@
 #define NCYC 3  // cycles (ticks or gaps)
 #endif
 #ifndef SHAPES
-#define SHAPES 0x1ff  // bit i enables shape i (see hk_c20.h shape_schema)
+#define SHAPES 0x3ff  // bit i enables shape i (see hk_c20.h shape_schema)
 #endif
 
 using namespace hk;
@@ -67,6 +67,13 @@ void compare_children(const TSInputView &a, const TSInputView &b, ChildCmp &c) {
                 compare_children(ca, cb, c);
             }
         }
+    } else if (kind == TSTypeKind::TSW) {
+        // window contents are compared whether or not the window has reached min_period (valid)
+        auto wa = a.as_window();
+        auto wb = b.as_window();
+        c.state &= (wa.size() == wb.size());
+        if (wa.size() == wb.size())
+            for (std::size_t i = 0; i < wa.size(); i++) c.state &= views_equal(wa.at(i), wb.at(i));
     } else if (kind == TSTypeKind::TSS) {
         auto sa = a.as_set();
         auto sb = b.as_set();
@@ -94,7 +101,7 @@ extern "C" int harness_main() {
 
     Acc acc;
     int ticks = 0, gaps = 0;
-    bool gap_then_tick = false, tainted = false, saw_dedup = false;
+    bool gap_then_tick = false, tainted = false, saw_dedup = false, below_min_recorded = false, unrecorded_tick = false;
     for (int c = 0; c < NCYC; c++) {
         DateTime t = MIN_ST + TimeDelta{c};
         {
@@ -115,6 +122,9 @@ extern "C" int harness_main() {
                 auto bv = B.view(t);
                 classify(schema, d.view(), ia, bv, cc);
                 apply_delta(bv, d.view());
+                if (schema->kind == TSTypeKind::TSW && !ia.valid()) below_min_recorded = true;
+            } else {
+                unrecorded_tick = true;
             }
             ticks++;
             if (gaps > 0) gap_then_tick = true;
@@ -163,6 +173,9 @@ extern "C" int harness_main() {
             acc.children_modified &= ch.modified;
         }
     }
+    // every tick of these histories is a real tick (no invalidation, no scheduling-only notification): the recorder's
+    // observability filter must keep all of them, valid or not (a tick window emits before it reaches min_period)
+    verif_assert(!unrecorded_tick, "C20.every_tick_is_recorded");
     verif_assert(acc.same_cycles, "C20.same_cycles");
     verif_assert(acc.valid, "C20.same_validity");
     verif_assert(acc.value, "C20.same_value");
@@ -182,6 +195,7 @@ extern "C" int harness_main() {
     if (g_child_only) verif_reach("child_only_tick");
     if (saw_dedup) verif_reach("class_empty_delta_on_valid_collection");
     if (tainted) verif_reach("class_unticked_collection_field");
+    if (below_min_recorded && ticks >= 3) verif_reach("window_push_below_min_period_recorded");
     verif_log("shape", shape);
     verif_log("ticks", ticks);
     verif_reach("end");
